@@ -1,5 +1,6 @@
 (* C05 — executable model M of the exact-number paths of pkg/cl/{add,subtract,multiply,divide,floor,
-   ceiling,truncate,round,mod,rem,abs,oneplus,oneminus,gcd,lcm,lt,lte,gt,gte,same}.go and of
+   ceiling,truncate,round,mod,rem,abs,oneplus,oneminus,gcd,lcm,lt,lte,gt,gte,same,logand,logior,logxor,
+   lognot}.go and of
    normalizenumber.go for fixnum / bignum / ratio operands.
    int64 arithmetic is written with its wrap-around; math/big is exact (Z, and Q as reduced n/d);
    the places where the Go code writes its result INTO an operand are modelled: every operation
@@ -397,8 +398,47 @@ Definition m_cmp (c : cmp) (args : list val) : out :=
               | _ => match args with [] => RCond CArith | a :: rest => cmp_chain c a rest end
               end; o_args := args |}.
 
+(* ---- logand logior logxor lognot ---- *)
+(* first loop: fixnum operands are folded into a uint64; the first bignum abandons that loop and
+   starts over with math/big on ALL operands; anything else is a type error *)
+Inductive bitop := BAnd | BOr | BXor.
+Definition u64 (z : Z) : Z := z mod (2 * two63).                 (* uint64(int64) keeps the bit pattern *)
+Definition bit_z (b : bitop) : Z -> Z -> Z :=                   (* on Z these are the two's-complement operations, as in math/big *)
+  match b with BAnd => Z.land | BOr => Z.lor | BXor => Z.lxor end.
+Definition bit_init (b : bitop) : Z := match b with BAnd => 18446744073709551615 | _ => 0 end.
+Inductive scan := SFix (u : Z) | SBig | SType.
+Fixpoint bit_scan (b : bitop) (u : Z) (l : list val) : scan :=
+  match l with
+  | [] => SFix u
+  | VFix z :: l' => bit_scan b (bit_z b u (u64 z)) l'
+  | VBig _ :: _ => SBig
+  | _ :: _ => SType
+  end.
+(* second loop: the accumulator is a fresh big.Int set from the first operand *)
+Fixpoint bit_big (b : bitop) (first : bool) (bi : Z) (l : list val) : option Z :=
+  match l with
+  | [] => Some bi
+  | (VFix z | VBig z) :: l' => bit_big b false (if first then z else bit_z b bi z) l'
+  | _ :: _ => None
+  end.
+Definition m_bit (b : bitop) (args : list val) : out :=
+  {| o_res := match bit_scan b (bit_init b) args with
+              | SFix u => RVal (VFix (wrap64 u))                 (* slip.Fixnum(result) *)
+              | SBig => match bit_big b true 0 args with Some z => RVal (VBig z) | None => RCond CType end
+              | SType => RCond CType
+              end;
+     o_args := args |}.
+Definition m_lognot (args : list val) : out :=
+  match args with
+  | [VFix z] => {| o_res := RVal (VFix (wrap64 (18446744073709551615 - u64 z))); o_args := args |}   (* ^uint64(z) *)
+  | [VBig z] => {| o_res := RVal (VBig (- z - 1)); o_args := args |}                                 (* big.Int.Not into a fresh value *)
+  | [_] => {| o_res := RCond CType; o_args := args |}
+  | _ => {| o_res := RVal VInexact; o_args := args |}        (* argument count errors: not modelled *)
+  end.
+
 Inductive opn :=
-| OAdd | OSub | OMul | ODiv | ORound (m : rounding) | OMod | ORem | OAbs | OInc | ODec | OGcd | OLcm | OCmp (c : cmp).
+| OAdd | OSub | OMul | ODiv | ORound (m : rounding) | OMod | ORem | OAbs | OInc | ODec | OGcd | OLcm | OCmp (c : cmp)
+| OBit (b : bitop) | OLognot.
 
 Definition m_op (o : opn) (args : list val) : out :=
   match o with
@@ -406,4 +446,5 @@ Definition m_op (o : opn) (args : list val) : out :=
   | ORound m => m_round m args | OMod => m_mod args | ORem => m_rem args | OAbs => m_abs args
   | OInc => m_inc 1 args | ODec => m_inc (-1) args | OGcd => m_gcd args | OLcm => m_lcm args
   | OCmp c => m_cmp c args
+  | OBit b => m_bit b args | OLognot => m_lognot args
   end.
